@@ -28,7 +28,7 @@ def hand_mdg_spec(draw, tops=(1, 2, 2, 3, 3), max_per_dim=3, max_n=3, max_n3=2, 
     dims = [top]
     for d in range(top - 1, -1, -1):
         # lower dimensions are present most of the time, but not always contiguous
-        if draw(st.integers(0, 3)) > 0:
+        if draw(st.sampled_from([True, True, True, False])):
             dims.append(d)
     sds = []
     for d in dims:
@@ -42,7 +42,8 @@ def hand_mdg_spec(draw, tops=(1, 2, 2, 3, 3), max_per_dim=3, max_n=3, max_n3=2, 
     pairs = [(i, j) for i, a in enumerate(sds) for j, b in enumerate(sds) if a["dim"] == b["dim"] + 1]
     intfs = []
     if pairs:
-        chosen = draw(st.lists(st.sampled_from(pairs), unique=True, max_size=max_intfs))
+        lo = draw(st.sampled_from([0, 1, 1, 1]))
+        chosen = draw(st.lists(st.sampled_from(pairs), unique=True, min_size=lo, max_size=max_intfs))
         for (i, j) in sorted(chosen):
             intfs.append({"hi": i, "lo": j, "sides": draw(st.sampled_from([1, 2, 2]))})
     return {"sds": sds, "intfs": intfs}
